@@ -365,6 +365,15 @@ def late_starts(case):
         return None
     if not any(e["ev"] == "deploy-begin" for e in log) and any(e["ev"] == "deploy" for e in log):
         return None  # a log without deploy-begin entries (older harness)
+    # the bound needs every slot to be TAKEN at the cancel: a goroutine that reaches its select after the cancel then finds the
+    # slot arm blocked and leaves through the close arm.  When the loop is cancelled in its first instants, with free slots and
+    # item goroutines that have not reached their select yet, Go's random choice among two ready arms lets such a goroutine start
+    # (with a cancelled context: the item run ends at once) - allowed by the properties, not bounded by this count (false alarm of
+    # the thorough tier, foreach-close-503-76: 105 instant items, parallelism 21, cancelled 2 ms in, 43 late starts).
+    begun_before = len([e for e in log if e["ev"] == "deploy-begin" and e["seq"] < c])
+    closed_before = len([e for e in log if e["ev"] == "close" and e["seq"] < c]) - len([e for e in log if e["ev"] == "probe" and e["seq"] < c])
+    if begun_before - max(closed_before, 0) < int(case["parallelism"]):
+        return None
     begun = [e for e in log if e["ev"] == "deploy-begin" and e["seq"] > c]
     normal_ends = [e for e in log if e["ev"] == "exec-end" and e["seq"] > c and e.get("out") != "cancelled"]
     allowed = int(case["parallelism"]) + len(normal_ends) + RACE_SLACK
